@@ -65,7 +65,10 @@ def present_key(key: tuple, shape) -> tuple:
             n = int(shape[m])
             lo, hi = k.start, k.stop
             # (also when the upper bound grows the mode: "from the end" refers to the extent before the assignment)
-            if lo is not None and 0 <= lo < n:
+            if lo == 0 and lay == "grown" and n > 0:
+                # a start counted from the end that reaches before the beginning is the beginning (slice semantics)
+                lo = -(n + 2)
+            elif lo is not None and 0 <= lo < n:
                 lo = lo - n
             if hi is not None and 0 < hi < n:
                 hi = hi - n
